@@ -110,3 +110,164 @@ def sequence_vs_fresh(tier, seed):
 def _replay(f):
     seq = [(k, bytes.fromhex(b)) for k, b in f['input']['sequence']]
     return in_sequence(seq)[-1] == fresh(*seq[-1])
+
+
+# ---------------------------------------------------------------------------------------------------------------------
+# shared-state table: a STATIC frame obligation.  Every statement inside a function of the decode-side packages which
+# writes class-level or module-level state (cls.X = / cls.X[...] = / ClassName.X... = / mutating method calls on those /
+# writes to an UPPERCASE attribute of a non-self object / `global`) is found by an AST scan of the current tree; each site
+# must be listed below with the reason why it cannot make a later decode depend on an earlier one.  A site which is not
+# listed -- new shared state on the decode path -- is a violation.
+SHARED_OK = {
+    # registration: runs while the modules are imported, never while decoding
+    'register': 'registration decorator / function: runs at import time',
+    # caches whose key is the complete input of the cached computation
+    ('bgp/message/update/collection.py', 'UpdateCollection._get_eor'): 'End-of-RIB objects memoised by (afi, safi): the key is the whole input',
+    ('bgp/message/update/attribute/community/initial/community.py', 'Community.cached'): 'keyed by the 4 packed bytes: the whole value',
+    ('bgp/message/update/attribute/community/large/community.py', 'LargeCommunity.cached'): 'keyed by the 12 packed bytes: the whole value',
+    ('bgp/message/open/capability/capability.py', 'CapabilityCode.__new__'): 'interned by value',
+    ('protocol/resource.py', 'Resource.__new__'): 'interned by class and value; the instances must stay immutable (NetMask did not: fixed in 05ec5e9)',
+    ('bgp/message/update/attribute/attribute.py', 'Attribute.unpack'): 'per-attribute cache keyed by the value bytes; consulted only when Attribute.caching and cls.CACHING (dead on Attribute itself, see seed C19-2)',
+    ('bgp/message/update/attribute/attribute.py', 'Attribute.setCache'): 'creates the empty per-attribute caches at start-up',
+    ('bgp/message/update/attribute/attribute.py', 'Attribute.klass'): 'writes kls.ID = the id the class was found under in the registry (idempotent for a class registered under its own ID; not examined for classes registered under several ids)',
+    ('bgp/message/update/attribute/collection.py', 'AttributeCollection.unpack'): 'last-block cache: under contract (cache clauses of AttributeCollection.unpack, C08 / C19)',
+    ('bgp/message/update/attribute/bgpls/linkstate.py', 'LinkState.get_ls_class'): 'memoises the class synthesised for an unknown TLV code: a function of the code alone',
+    ('bgp/message/update/attribute/bgpls/linkstate.py', 'LinkState._decode_tlv'): 'reads instance.flags to force the lazy parse: no class state written',
+    ('protocol/ip/port.py', 'Port._ensure_loaded'): 'lazy load of a static name table',
+    ('protocol/ip/__init__.py', 'IP.register'): 'registration at import time',
+    ('bgp/message/open/capability/capability.py', 'Capability.unknown'): 'registration of the fallback class at import time',
+    ('bgp/message/open/capability/capability.py', 'Capability.klass'): 'rewrites kls.ID with the code just looked up (RouteRefresh and MultiSession are registered under two codes): shared class state written while decoding; its observable effect is checked by the bounded check open-sequences',
+}
+MUTATORS = {'append', 'add', 'update', 'setdefault', 'pop', 'clear', 'extend', 'insert', 'remove', 'cache', 'popitem', 'discard'}
+
+
+def shared_state_sites():
+    import ast as A
+
+    root = os.path.join(os.environ.get('PYVC_REPO', '/repo'), 'src', 'exabgp')
+    out = []
+
+    def base_name(n):
+        while isinstance(n, (A.Attribute, A.Subscript)):
+            n = n.value
+        return n.id if isinstance(n, A.Name) else None
+
+    def shared(t):
+        n = t.value if isinstance(t, A.Subscript) else t
+        if isinstance(n, A.Attribute):
+            b = base_name(n)
+            if b == 'cls' or (b and b[0].isupper()):
+                return True
+            if b not in ('self', None) and n.attr.isupper() and isinstance(t, A.Attribute):
+                return True  # X.ID = ... on something which is not self: a class constant rewritten at run time
+        return False
+
+    for sub in ('bgp/message', 'protocol'):
+        for dp, _dn, fns in os.walk(os.path.join(root, sub)):
+            for f in fns:
+                if not f.endswith('.py'):
+                    continue
+                p = os.path.join(dp, f)
+                rel = os.path.relpath(p, root)
+                tree = A.parse(open(p).read())
+                modlevel = set()
+                for n in tree.body:
+                    if isinstance(n, (A.Assign, A.AnnAssign)):
+                        for t in n.targets if isinstance(n, A.Assign) else [n.target]:
+                            if isinstance(t, A.Name):
+                                modlevel.add(t.id)
+
+                def walk(node, qual, inf):
+                    for ch in A.iter_child_nodes(node):
+                        q, i2 = qual, inf
+                        if isinstance(ch, (A.FunctionDef, A.AsyncFunctionDef)):
+                            q, i2 = (qual + '.' if qual else '') + ch.name, True
+                        elif isinstance(ch, A.ClassDef):
+                            q = (qual + '.' if qual else '') + ch.name
+                        if i2:
+                            if isinstance(ch, (A.Assign, A.AugAssign, A.AnnAssign)):
+                                for t in ch.targets if isinstance(ch, A.Assign) else [ch.target]:
+                                    if shared(t) or (isinstance(t, A.Subscript) and base_name(t) in modlevel):
+                                        out.append((rel, q, ch.lineno, A.unparse(t)[:70]))
+                            elif isinstance(ch, A.Global):
+                                out.append((rel, q, ch.lineno, 'global ' + ','.join(ch.names)))
+                            elif isinstance(ch, A.Call) and isinstance(ch.func, A.Attribute) and ch.func.attr in MUTATORS:
+                                recv = ch.func.value
+                                if shared(recv) or (isinstance(recv, (A.Name, A.Subscript)) and base_name(recv) in modlevel):
+                                    out.append((rel, q, ch.lineno, A.unparse(ch)[:70]))
+                        walk(ch, q, i2)
+
+                walk(tree, '', False)
+    return out
+
+
+@bounded('C19', 'shared-state-table')
+def shared_state_table(tier, seed):
+    sites = shared_state_sites()
+    fails, reasons = [], {}
+    for rel, qual, line, text in sites:
+        if (rel, qual) in SHARED_OK:
+            reasons[f'{rel}:{qual}'] = SHARED_OK[(rel, qual)]
+        elif 'register' in qual.lower():
+            reasons['register*'] = SHARED_OK['register']
+        else:
+            fails.append({'what': f'{rel} {qual} (line {line}) writes shared state: `{text}` -- a decode could now depend on what was decoded before; no justification is recorded for this site', 'input': {'file': rel, 'function': qual, 'text': text}})
+    if len(sites) < 30:
+        raise RuntimeError(f'shared-state scan found only {len(sites)} sites: the scan no longer sees the source')
+    return {'evaluations': len(sites), 'distinct_nontrivial': len(sites), 'bound': f'STATIC: all {len(sites)} statements inside functions of bgp/message/** and protocol/** which write class-level or module-level state (AST scan of the current tree), each against a table of justified sites; what the syntax cannot show (an attribute written on an object fetched from a cache, as NetMask did) is not covered. Justifications in use: {reasons}', 'rule': 'one case = one writing statement', 'samples': [{'file': sites[0][0], 'function': sites[0][1]}], 'failures': fails}
+
+
+@replayer('C19', 'shared-state-table')
+def _replay_shared(f):
+    r = shared_state_table('quick', 1)
+    return not any(x['input'] == f['input'] for x in r['failures'])
+
+
+@bounded('C19', 'open-sequences')
+def open_sequences(tier, seed):
+    """Capability.klass rewrites a class constant while decoding (see shared-state-table).  Peer OPENs which use the
+    standard codes (2, 68) and the Cisco ones (128, 131) for the same capability classes are decoded in every order of
+    three; the JSON event of each OPEN and the bytes of OUR OWN next OPEN must be what they are in a fresh state"""
+    import itertools
+    from . import harness as H
+    from exabgp.bgp.message import Open
+    from exabgp.bgp.message.open import Version
+    from exabgp.bgp.message.open.capability import Capabilities
+    from exabgp.reactor.api.response.json import JSON
+
+    nb = H.neighbor(capability='route-refresh enable;')
+    base = [H.cap(1, b'\x00\x01\x00\x01'), H.cap(65, (65001).to_bytes(4, 'big'))]
+    variants = {'standard': base + [H.cap(2, b''), H.cap(68, b'')], 'cisco': base + [H.cap(128, b''), H.cap(131, b'')], 'both': base + [H.cap(2, b''), H.cap(128, b'')], 'none': base}
+
+    def ours():
+        o = Open.make_open(Version(4), nb.session.local_as, nb.hold_time, nb.session.router_id, Capabilities().new(nb, False))
+        neg, _, _ = H.negotiated(nb, H.peer_open_bytes(65001, 180, '9.9.9.9', H.std_caps(65001)))
+        return bytes(o.pack_message(neg))
+
+    def event(name):
+        neg, _sent, recv = H.negotiated(nb, H.peer_open_bytes(65001, 180, '9.9.9.9', variants[name]))
+        import json as _j
+
+        ev = _j.loads(JSON('6.0.0').open(nb, 'receive', recv, b'', b'', neg))
+        return _j.dumps(ev['neighbor']['open'], sort_keys=True)
+
+    reference_ours = ours()
+    reference = {}
+    fails, evals = [], 0
+    for name in variants:
+        reference[name] = event(name)  # first decode of each, in a state no Cisco code has touched for 'standard' / 'none'
+    for seq in itertools.permutations(variants, 3):
+        for name in seq:
+            evals += 1
+            got = event(name)
+            if got != reference[name] and len(fails) < 5:
+                fails.append({'what': f'the OPEN event of a peer announcing {name} capabilities depends on the OPENs decoded before it', 'input': {'sequence': list(seq), 'at': name}, 'expected': reference[name][:300], 'observed': got[:300]})
+            if ours() != reference_ours and len(fails) < 5:
+                fails.append({'what': 'our own OPEN changed after decoding peer OPENs', 'input': {'sequence': list(seq), 'at': name}})
+    return {'evaluations': evals, 'distinct_nontrivial': evals, 'bound': 'every ordered triple of four peer OPEN variants (standard codes 2/68, Cisco codes 128/131, both, none); JSON event of each and our own next OPEN compared with the first decode', 'rule': 'one case = one OPEN in one sequence', 'samples': [{'sequence': ['cisco', 'standard', 'none']}], 'failures': fails}
+
+
+@replayer('C19', 'open-sequences')
+def _replay_opens(f):
+    r = open_sequences('quick', 1)
+    return not r['failures']
